@@ -937,7 +937,7 @@ def rule_formatsafe(ctx, rule, files):
                 n += 1
                 ok = literal(node.func.value, fn)
                 yield ob(rule, "mir_eval/%s.py:%d" % (mname, node.lineno), "%s:format@%d" % (".".join(where), k), ok, "format template is a literal / module constant" if ok else "str.format is applied to %s, which is not a template written in the source: text containing { or } raises from str.format" % ast.unparse(node.func.value)[:60], node=node)
-    need(n >= 3, rule, "only %d format calls found" % n)
+    need(n >= 1, rule, "no format call found")
 
 
 def alpha(t):
